@@ -92,6 +92,8 @@ M = [
  ('C14-b', 'C14', 'core/wl/object.py', "        if self.type:\n            return self.type", "        if self.type is not None:\n            return self.type", 0),
  ('C03-d', 'C03', 'core/wl/message.py', "                destroyed += color(timestamp_color, ' after {:0.4f}s'.format(lifespan))", "                destroyed += color(timestamp_color, ' after {:0.4f}s'.format(self.timestamp))", 1),
  ('C03-e', 'C03', 'core/wl/message.py', "        if self.destroyed_obj:\n            destroyed = (", "        if self.destroyed_obj or self.name == 'destroy':\n            destroyed = (", 1),
+ ('C12-j', 'C12', 'frontends/tui/controller.py', "            self.stop_matcher = self.parse_and_join(arg, self.stop_matcher)", "            self.stop_matcher = self.parse_and_join(arg, self.display_matcher)", 1),
+ ('C12-k', 'C12', 'frontends/tui/controller.py', "            self.display_matcher = self.parse_and_join(arg, self.display_matcher)", "            self.display_matcher = self.parse_and_join(arg, None)", 1),
  ('C16-a', 'C16', 'frontends/tui/controller.py', 'if delta > 1.0:', 'if delta >= 1.0:', 1),
  ('C16-b', 'C16', 'frontends/tui/controller.py', "                ')')\n            self.last_shown_timestamp = None", "                ')')", 1),
  ('C06-a', 'C06', 'frontends/tui/controller.py', 'if self.current_connection is None or connection == self.current_connection:', 'if True:', 1),
